@@ -41,8 +41,6 @@ SdHashSym(jwt, ds) == <<"sdh", jwt.id, Ids(ds)>>
 MkMsg(jwt, ds, kb, tm) == [jwt |-> jwt, discs |-> ds, kb |-> kb, sdh |-> SdHashSym(jwt, ds), tm |-> tm]
 Wire(d) == [id |-> d.id, dg |-> d.dg, dec |-> d.dec]          \* a disclosure as it travels (ghost path dropped)
 WireSeq(S) == LET s == SetToSeq(S) IN [i \in DOMAIN s |-> Wire(s[i])]
-ResolverKey(res, pl) == IF res.kind = "const" THEN res.key
-                        ELSE LET i == StrField(pl, "iss") IN IF i \in DOMAIN res.map THEN res.map[i] ELSE ""
 
 Init == /\ plan \in PlanSet
         /\ creds = <<>> /\ ledger = {} /\ cur = NoMsg /\ other = NoMsg /\ ghost = NoMsg
@@ -269,7 +267,7 @@ Adversary == AdvAddDisc \/ AdvDropDisc \/ AdvDupDisc \/ AdvSwapDiscs \/ AdvMoveK
 Verify ==
   /\ ph = "adv"
   /\ \E va \in VerifyArgs, now \in Ticks :
-       LET rk == IF ParseOK(cur) THEN ResolverKey(va.res, cur.jwt.pl) ELSE ""
+       LET rk == IF ParseOK(cur) THEN ResolverKeyOf(va.res, cur.jwt) ELSE ""
            r == SpecVerify(cur, rk, va.aud, va.nonce, now, now, ledger, KeyFam, Jwks)
        IN /\ obs' = Append(obs, [m |-> cur, va |-> va, rk |-> rk, now |-> now, r |-> r])
           /\ hist' = Append(hist, [a |-> "Verify", res |-> va.res, aud |-> va.aud, nonce |-> va.nonce, now |-> now, expect |-> r])
